@@ -5,12 +5,60 @@ import json, os
 VERIF = os.path.dirname(os.path.dirname(os.path.abspath(__file__)))
 ALL = ["C%02d" % i for i in range(1, 21)]
 
+def claim(technique, text, note, design):
+    return dict(technique=technique, text=text, note=note, design=design)
+
+
+COMMON_NOTE = ("Trusted: Coq 8.16.1 kernel (vm_compute in proofs and for model evaluation, no native_compute, no axioms: every property theorem is "
+               "'Closed under the global context'); tools/facts translator; the Go/C/strace harness and the case-file glue (lib/*.py); the Go and C source "
+               "is modelled, not verified. ")
+
 CLAIMED = {
- "C13": dict(
-    technique="Coq proof (induction over reader events; scanner model refines a plain recursive parser) + differential evaluation of the model inside Coq (vm_compute) against sasl.Request/Response on generated streams and fragmentations",
-    text="Theorems over the executable Gallina model of sasl_encoding.go (encoders, split function, bufio.Scanner control flow): exact format, round trip for every field content up to the limit and every well-behaved reader, over-limit refusal, re-encode = consumed bytes, fragment independence, PAM bytes = Go bytes; all closed under the global context. The model is tied to the code on every run by tools/facts (MaxRequestLength, WHAWTY_REQUEST_MAX_PARTLEN) and by evaluating the model on the cases the real decoder/encoder just ran.",
-    note="Trusted: Coq kernel; tools/facts; the Go overlay driver and scripted io.Reader; bufio.Scanner is modelled over its pending bytes (buffer growth unreachable by split_decides); Go source modelled, not verified.",
-    design="5/C13"),
+ "C01": claim("Coq refinement proof (file-level store refines abstract password map, induction over histories) + differential replay of recorded histories inside Coq",
+    "Theorems: for every operation history from an empty store, every visible result (authenticate, exists, add/update/set-admin/remove/init results) equals the one the abstract map user -> (password, admin, last-change, parameter set) prescribes; list agrees; argon2id near-misses refused; characterisation of the scrypt key equivalence. KDFs are parameters with explicit premises (no collisions beyond the key equivalence). Tie: random histories run on a real directory through store.Dir, replayed on the model step by step (results + byte-level snapshots), digests recomputed independently with x/crypto; an abstract-map monitor judges the observed results.",
+    COMMON_NOTE + "Assumed (premises of the theorems): KDF collision freedom up to the schema's key equivalence, SHA-256 only through that equivalence.", "5/C01"),
+ "C02": claim("Coq proof of parser soundness against an inductive record grammar, for all file contents + differential replay on mutated/foreign/random files",
+    "Theorems for every byte string as file content and every kdf: success only for a schema record of a configured set with the recomputed digest; whole digest compared; fewer than four fields never succeed; unsupported files hidden from list / shown by list-full / block add / update refused byte-identically / removed; independently written records authenticate. Tie: ~2700 file contents (systematic mutations, edge numbers, random) through all store operations, compared with the model and judged by an independent grammar reader.",
+    COMMON_NOTE + "Go's encoding/base64, strconv and strings functions are modelled (validated by the same differential stream). 'No crash or hang' is observed (recover + watchdog), not proved.", "5/C02"),
+ "C03": claim("Coq proofs: matcher = regex grammar, invalid name => no effect and no system call, footprint of every program under every fault + API sweep with decoy tree and strace footprints",
+    "Theorems: the boolean matcher is exactly the regular expression's grammar (regex source extracted from the code); every operation with a name outside the grammar returns a refusal and the same state; at system-call level not a single call is made; for all arguments and injected faults every created/written/synced/renamed/unlinked object is <u>.user, <u>.admin, .tmp or the base directory. Tie: generated names through every entry point on a tree with a sibling store and decoys (whole tree hashed), traced operations projected to the footprint alphabet.",
+    COMMON_NOTE + "Symlinks inside the base directory are outside the model.", "5/C03"),
+ "C05": claim("Coq proofs over the connection handler model for all read-event sequences and callbacks + raw-socket differential run against sasl.Server",
+    "Theorems for every sequence of read results and every callback: at most one callback with exactly the decoded fields; positive reply only if decoded and approved without error; a terminated stream gets exactly one reply; no reply before the request is complete; every server-determined reply is one length-prefixed part decodable by the Go client and the PAM reader with the callback's verdict; connections independent. Tie: scripted clients (truncation at every byte, over-long fields, trailing bytes, abandoned, concurrent) against a real sasl.Server.",
+    COMMON_NOTE + "A silent client that keeps the connection open is never answered (no read deadline); theorems are about terminated streams.", "5/C05"),
+ "C06": claim("Coq proofs over the handler model (every request, every state, sequences by induction) + differential replay of request sequences against the handler mux",
+    "Theorems: undecodable bodies and every unauthorised or empty-field request get a non-success status, no list, no session and leave store, configuration and sessions unchanged; an effect implies authorisation; lists only to admin sessions; effects are exactly the store operations; a token is issued only after a successful password authentication and names that user and flag; closed under sequences. Tie: 12 (thorough 200) sequences of 49 requests over the endpoint x credential x target x body-shape matrix via httptest, statuses, list/session presence and snapshots compared with the model; an authorisation monitor on the observed run.",
+    COMMON_NOTE + "HTTP routing and JSON text parsing (net/http, encoding/json) are identity within the decoded values; AES-GCM idealised as in C07.", "5/C06"),
+ "C07": claim("Coq proofs under the ideal-AEAD log reading + differential run of ~3000 presented strings (all single-bit mutations) against webSessionFactory",
+    "Theorems: acceptance iff the text decodes to a sealed (nonce, ciphertext) whose plaintext parses and lies in the window, returning exactly the issued name and flag; names with ':' never accepted; strict flag; pairs not in this instance's log rejected; expiry, future dating and the inclusive boundary (with Go's time.Unix wrap-around modelled); nonces distinct given distinct randomness. Tie: tokens issued and tokens sealed with chosen plaintexts, every single-bit mutation of the content, character mutations, truncations, splices, other-instance tokens, garbage; verdicts compared with the model and with a direct reading of the log.",
+    COMMON_NOTE + "Assumed: AES-GCM opens only what this key sealed (INT-CTXT idealisation); crypto/rand nonces are distinct (measured over 2000 issuances).", "5/C07"),
+ "C08": claim("Coq proof over a persistence model: every prefix of a disciplined trace x every crash state; model programs follow the discipline + strace traces fed to the verified checker",
+    "Theorems: for every trace accepted by the executable protocol checker, every prefix (crash instant) and every crash state (any sub-sequence of pending directory changes kept, any content in unsynced inodes), the target is absent / an empty reservation (add only) / old-complete / new-complete and every other file is untouched; the kill-only instance; the model's add and update programs are accepted and their new content is new record + old auxiliary data. Tie: traced add/update/init on prepared stores projected to events, compared with the model's events and judged by the same checker.",
+    COMMON_NOTE + "Assumed: kernel and file system implement the stated persistence model (atomic rename, fsync semantics).", "5/C08"),
+ "C09": claim("Coq proof: completed protocol => quiescent base directory => every crash state shows the volatile view; verified durability checker + strace traces",
+    "Theorems: on a base-quiescent disk crash view = volatile view; a completed add/update re-establishes quiescence with the new content (chains over histories); no early visibility (fsync of the temp file precedes the rename with no write in between); set-admin and remove followed by fsync of the base directory are durable; checker soundness; refutation witnesses for bare rename / unlink. Tie: every traced successful mutation must pass durability_ok / protocol_complete_ok.",
+    COMMON_NOTE + "Assumed: the persistence model (see C08).", "5/C09"),
+ "C10": claim("Coq proof of deadlock freedom of the dispatcher LTS for every scheduler, instantiated with AST facts extracted from the source + adversarial load with watchdog",
+    "Theorems (for the extracted capacities and the extracted non-blocking upgrade enqueue, every upgrade mode, every reachable state, any number of clients): whenever anything is pending the system can step; the dispatcher is back at its select within two steps; it never waits on its own queue; queues bounded and FIFO; refutation of the blocking variant (wedged for good). Tie: tools/facts (capacities, send structure, goroutine structure) cross-checked with cap() in-process; load patterns with 24-64 clients incl. unreachable/stalled upgrade master and slow/hanging hooks under a progress watchdog.",
+    COMMON_NOTE + "Partial (runtime): 'eventually answered' is deadlock freedom + FIFO service; fairness of Go's randomised select and OS-level blocking in exec / HTTP client are not modelled. Hooks goroutine and remote upgrader are assumed to keep receiving (they never wait for the dispatcher: extracted fact).", "5/C10"),
+ "C11": claim("Coq proof: linearisation-point theorems for the dispatcher LTS (log = sequential execution, per-client protocol, upgrades never undo) + linearizability search on recorded histories",
+    "Theorems for every execution: store and every logged result equal the single-threaded execution of the handled requests in handling order; every returned answer is the logged result of that client's own request; per client the trace reads Call, Enq, Handle, Ret (so each linearisation point lies between call and return); every request handled once; an internal upgrade (which re-authenticates: extracted fact) touches nobody else and never changes which password works; refutation of the stale upgrade. Tie: 150 (thorough 5000) concurrent histories recorded at the Store interface with upgrades off/local, each decided by a memoised linearizability search against the sequential specification; driver built with -race.",
+    COMMON_NOTE + "The linearizability search is validation and failing-history search, not proof. Data-race freedom of the Go code is observed (race detector), not proved.", "5/C11"),
+ "C13": claim("Coq proof (induction over reader events; scanner model refines a plain recursive parser) + differential evaluation of the model inside Coq against sasl.Request/Response",
+    "Theorems over the executable model of sasl_encoding.go: exact format, round trip for every field content up to the limit and every well-behaved reader, over-limit refusal, re-encode = consumed bytes, fragment independence, PAM bytes = Go bytes. Tie: tools/facts (MaxRequestLength, WHAWTY_REQUEST_MAX_PARTLEN) and ~18500 cases (boundary lengths, exhaustive short decoder inputs, all fragmentations of short streams, random fragmentations with empty reads / EOF-with-data / errors).",
+    COMMON_NOTE + "bufio.Scanner is modelled over its pending bytes (buffer growth unreachable by split_decides).", "5/C13"),
+ "C14": claim("Coq proof that add/update write exactly the schema line + byte-for-byte comparison of every written file with independently recomputed digests",
+    "Theorems: a successful add / update leaves exactly the schema line of the default set for the oracle time and salt and the digest of exactly this password, followed by the old auxiliary data; it parses back; it is a single line; the written bytes depend on the password only through the digest; salt and digest are recoverable from the line (fresh salts never repeat a record). Tie: stores created by NewDirFromConfig from YAML the harness printed; every written file compared with the line built from the digest recomputed with x/crypto; salt size/freshness, call-window time, scan for passwords and HMAC keys.",
+    COMMON_NOTE + "The digest functions themselves (argon2id, scrypt, HMAC) are oracles recomputed by the harness.", "5/C14"),
+ "C15": claim("Coq proofs: frame theorems on arbitrary directories and failure-atomicity of the system-call programs under every single injected fault + strace fault injection",
+    "Theorems: update rewrites only the first line of its target, set-admin moves the whole record, add creates one file, nothing else changes; every failing add/update/set-admin/init leaves the directory as it was; under every single injected system-call failure a failing add changes nothing, a failing update/set-admin changes nothing unless the rename had already happened (the full statement is refuted with a witness: known finding); faults that do not fail the operation do not change its effect; read-only calls never change the directory. Tie: histories with auxiliary data (frame monitor) and every tracked system call of add/update/set-admin/remove x errno injected with strace, result and directory compared with the model.",
+    COMMON_NOTE + "Known finding (KNOWN_FINDINGS.txt): an I/O error after the rename is reported as failure although the change is in place.", "5/C15"),
+ "C16": claim("Coq proofs: check result = order-free validity for every permutation of the listing; validity and well-formedness invariants over every operation and history + generated directories",
+    "Theorems: for every directory built from valid names and every permutation of its listing the check accepts iff every entry is <name>.user|.admin, no name has both and some admin file is supported; every operation keeps the store well-formed (no double files, empty work area) and, unless it removes/demotes the last administrator, valid - also over histories; init only on an empty directory and produces a valid store. Tie: ~800 generated directories (45 % valid) and histories with a check after every operation, compared with the model and an independent validity reading.",
+    COMMON_NOTE + "The CLI gate (exit status when the check fails) is exercised in the thorough tier only.", "5/C16"),
+ "C20": claim("Coq proofs over the model of the module's protocol logic + runs of the compiled module (stub headers, ASan/UBSan) against scripted servers",
+    "Theorems: SUCCESS only if the server's first part begins with OK (and arrives within the timeout); the request on the wire is the saslauthd encoding of the clipped user and password, identical to the Go encoder's; unreachable, short, silent, negative replies never give SUCCESS; missing password; only the first part matters; reading a reply takes at most 2+256 bounded waits. Tie: pam_whawty.c from the working tree against scripted unix-socket servers (reply corpus cut at every byte, lying lengths, delays on both sides of the timeout, early close), PAM code and received request compared with the model.",
+    COMMON_NOTE + "Partial (runtime): memory safety observed with sanitizers, not proved; libpam is replaced by stand-ins (harness/pam).", "5/C20"),
 }
 
 NOT_YET = "claimed by DESIGN.md but its check is not built yet in this snapshot; no claim is made until the check exists"
